@@ -161,14 +161,25 @@ func raceLockMap(seed int64) {
 				if lr.Intn(2) == 0 {
 					if lm.Lock(ctx, keys[k]) {
 						crit()
-						lm.Unlock(keys[k])
+						func() {
+							defer func() {
+								if x := recover(); x != nil {
+									raceFail("Unlock by the caller that holds key %s panicked: %v", keys[k], x)
+								}
+							}()
+							lm.Unlock(keys[k])
+						}()
 					} else if ctx.Err() == nil {
 						raceFail("Lock returned false although its context is not done")
 					}
 				} else {
 					boom := lr.Intn(6) == 0
 					func() {
-						defer func() { recover() }()
+						defer func() {
+							if x := recover(); x != nil && x != "callback" {
+								raceFail("Run on key %s panicked: %v", keys[k], x)
+							}
+						}()
 						lm.Run(ctx, keys[k], func(context.Context) error {
 							crit()
 							if boom {
@@ -496,6 +507,13 @@ func raceSignature(out string) (sig string, report string) {
 			rep = rep[:8000]
 		}
 		return "hang: real goroutines wedged", rep
+	}
+	if i := strings.Index(out, "RACEWORK PANIC: invariant:"); i >= 0 {
+		rep := out[i:]
+		if len(rep) > 3000 {
+			rep = rep[:3000]
+		}
+		return "invariant broken under real parallelism", rep
 	}
 	if i := strings.Index(out, "RACEWORK PANIC:"); i >= 0 {
 		rep := out[i:]
